@@ -24,7 +24,7 @@ LEVEL_NOTE = ("Trusted: Lean kernel; axioms propext/Classical.choice/Quot.sound;
               "streams as hypothesis, protobuf marshalling a parameter with a left-inverse hypothesis; os.RemoveAll/MkdirAll/Create/Symlink are "
               "assumed to behave as the pure FS functions (sampled by the tie). Not modelled: permission errors, special files, symlinks in the "
               "ancestor chain of the destination (the OS follows them; `Clear` excludes them), non-UTF-8 names (protobuf rejects them at write time), mode bits other "
-              "than 'some executable bit set', the interleaving of the restore goroutines (only their joint result).")
+              "than the owner's execute bit (stale files with other modes occur as prior states in the tie), the interleaving of the restore goroutines (only their joint result).")
 TECHNIQUE = "Lean 4 proof over an executable model + differential correspondence with the real output handlers + before/after listing oracle"
 PROP_MODULES = ["GrogModel.Props.C06", "GrogModel.Props.ComposeStores"]
 OBLIGATIONS = [
@@ -34,6 +34,8 @@ OBLIGATIONS = [
     "Grog.C06.validate_outputs",
     "Grog.C06.restoreFile_old_loses_exec_witness",
     "Grog.C06.restoreFile_old_missing_parent_witness",
+    "Grog.C06.modeAfter_fixed_owner",
+    "Grog.C06.modeAfter_old_not_runnable_witness",
     "Grog.Compose.restoreDir_refines_exec_restore",
     "Grog.Compose.restoreFile_refines_exec_restore",
 ]
@@ -48,7 +50,8 @@ WSNAMES = ["ws", "ws", "clients/[acme]/w s", "a*b?c", S.proto("ünï/{x}/[1-9]")
 DIR_IDS = ["out", "out/sub/dir", "dist", S.proto("öut/d ir"), "dist[debug]", "o*t/[a-z]"]
 FILE_IDS = ["f.txt", "out/sub/f.txt", "bin/tool", S.proto("dïr/a b.txt"), "gen[1]/f?.txt"]
 PRIORS_DIR = ["absent", "absent-parents", "same", "other-tree", "mutated", "file-at-dst", "empty-dir", "dangling-link-at-dst", "mutated", "link-to-same-dir", "link-to-other-dir"]
-PRIORS_FILE = ["absent", "absent-parents", "same", "modified", "truncated", "exec-flipped", "other-exec", "modified", "link-to-same-file", "link-to-other-file", "dangling-link-at-dst", "dir-at-dst"]
+PRIORS_FILE = ["absent", "absent-parents", "same", "modified", "truncated", "exec-flipped", "other-exec", "modified", "link-to-same-file", "link-to-other-file", "dangling-link-at-dst", "dir-at-dst",
+               "odd-mode-same", "odd-mode-other"]
 
 
 def split(p):
@@ -101,6 +104,10 @@ def make_prior(rng, kind, ws, pkg, dst, cached):
         return S.put(ws, dst, F(cached[1], not cached[2]))
     if kind == "other-exec":
         return S.put(ws, dst, F("other", not cached[2]))
+    if kind == "odd-mode-same":
+        return S.put(ws, dst, ["f", cached[1], rng.choice(S.ODD_MODES)])
+    if kind == "odd-mode-other":
+        return S.put(ws, dst, ["f", cached[1] + "?", rng.choice(S.ODD_MODES)])
     raise ValueError(kind)
 
 
@@ -214,6 +221,8 @@ def classify(case, meta, x, otype, oid, before, after):
         return "file-restore-missing-parent-dir"
     if otype == "file" and x.get("load") == "ok" and before and after and before[0] == "f" and after[0] == "f" \
             and before[1] == after[1] and before[2] != after[2]:
+        if str(meta.get("prior", "")).startswith("odd-mode"):
+            return "file-restore-keeps-stale-permission-mode"
         return "file-restore-executable-bit-differs"
     return "restore-differs:%s:%s:%s" % (otype, meta["prior"], x.get("load"))
 
@@ -319,7 +328,7 @@ def compare(case, x, y):
         if S.jdump(sorted(x.get("file_exec_flags", []))) != S.jdump(sorted(y.get("file_exec_flags", []))):
             diffs.append("file_exec_flags")
         if x.get("load") == "ok" and y.get("load") == "ok":
-            if S.jdump(S.canon(x["after"])) != S.jdump(S.canon(y["after"])):
+            if S.jdump(S.canon(x["after"])) != S.jdump(S.canon(S.digestify(y["after"]))):
                 diffs.append("after")
             if x.get("gets") != y.get("gets") and not case.get("direct"):
                 diffs.append("gets")
@@ -400,6 +409,49 @@ def fixed_cases(scratch, quick=True):
     swapped = D(("a", D(("x", F("x")))), ("ab", F("x", False)), ("a.b", F("")), ("abc", L("ab")), ("a b", D()), ("z", F("x")))
     for prior in (D(), D(("p", D(("out", swapped)))), D(("p", D(("out", D(("a", F("x")), ("ab", F("x")), ("e", F(""))))))), D(("p", D(("out", t))))):
         out.append((case(D(("p", D(("out", t)))), prior, [["dir", "out"]]), {"kind": "dir", "prior": "near-miss", "size": S.size(t), "depth": 2, "fam": "near-miss"}))
+    # permission modes of a stale file at the destination: same bytes / other bytes under modes where only some of the
+    # executable bits are set (a restored executable must be runnable by its owner; a restored plain file must not be executable)
+    for x in (True, False):
+        f = F("#!/bin/sh\necho run me\n", x)
+        for mode in S.ODD_MODES:
+            for content in (f[1], "stale bytes"):
+                out.append((case(D(("p", D(("tool", f)))), D(("p", D(("tool", ["f", content, mode])))), [["file", "tool"]], direct=(mode % 2 == 0)),
+                            {"kind": "file", "prior": "odd-mode", "size": len(f[1]), "depth": 0, "fam": "modes"}))
+    t = D(("bin", D(("tool", F("#!/bin/sh\n", True)), ("data", F("d")))), ("run.sh", F("x", True)))
+    for mode in (0o654, 0o645, 0o611):
+        pr = D(("bin", D(("tool", ["f", "#!/bin/sh\n", mode]), ("data", F("d")))), ("run.sh", ["f", "x", mode]))
+        out.append((case(D(("p", D(("out", t)))), D(("p", D(("out", pr)))), [["dir", "out"]]),
+                    {"kind": "dir", "prior": "odd-mode", "size": S.size(t), "depth": 2, "fam": "modes"}))
+    # large file outputs (>= 8 MiB, block-generated): prior states that are block permutations / block-wise near misses of the cached
+    # file, and an earlier cached version that is a block permutation of the current one (listings carry an independent SHA-256)
+    MiB = 1 << 20
+    def blocks(order, unit):
+        return [[65 + k, unit] for k in order]
+    big = []
+    for unit, n in ((4 * MiB, 3), (4 * MiB, 2), (2 * MiB, 5), (MiB, 9)) if quick else ((4 * MiB, 3), (4 * MiB, 2), (4 * MiB, 4), (2 * MiB, 5), (2 * MiB, 4), (MiB, 9), (MiB, 8), (8 * MiB, 2), (3 * MiB, 3)):
+        ident = list(range(n))
+        for tail in ([], [[90, 1]], [[90, 4097]]) if (unit == 4 * MiB and n == 2) else ([],):
+            v = blocks(ident, unit) + tail
+            perms = [ident[::-1], ident[1:] + ident[:1]]
+            priors = [("absent", None)] + [("block-permuted", blocks(p, unit) + tail) for p in perms if p != ident] + \
+                     [("block-dropped", blocks(ident[:-1], unit) + tail), ("block-changed", blocks(ident[:-1] + [25], unit) + tail)]
+            for x, (pk, runs) in enumerate(priors):
+                big.append((v, pk, runs, None, x % 2 == 0))
+            big.append((v, "earlier-permuted", None, blocks(perms[0], unit) + tail, False))
+            big.append((v, "earlier-permuted", blocks(perms[1], unit) + tail, blocks(perms[0], unit) + tail, True))
+    for v, pk, runs, earlier, x in big:
+        ws = D(("p", D(("big.bin", S.FB(v, x)))))
+        prior = D(("p", D())) if runs is None else D(("p", D(("big.bin", S.FB(runs, x)))))
+        kw = {"direct": True}
+        if earlier is not None:
+            kw["earlier"] = D(("p", D(("big.bin", S.FB(earlier, x)))))
+        out.append((case(ws, prior, [["file", "big.bin"]], **kw),
+                    {"kind": "file", "prior": pk, "size": sum(c for _, c in v), "depth": 0, "fam": "large", "nomodel": True}))
+    # ... and inside a directory output
+    t = D(("blob", S.FB(blocks([0, 1, 2], 4 * MiB))), ("small", F("s")))
+    for pr in (D(("blob", S.FB(blocks([2, 0, 1], 4 * MiB))), ("small", F("s"))), D()):
+        out.append((case(D(("p", D(("out", t)))), D(("p", D(("out", pr)))), [["dir", "out"]], direct=True),
+                    {"kind": "dir", "prior": "block-permuted", "size": 3, "depth": 1, "fam": "large", "nomodel": True}))
     return out
 
 
@@ -415,19 +467,21 @@ def run(ctx):
         c, m, _ = gen_case(ctx.rng, i, scratch, quick)
         cases.append((c, m))
     reqs = [c for c, _ in cases]
-    ctx.coverage["rule"] = (f"{len(fixed)} targeted cases (repaired defects, tree shapes, boundary file sizes 0..65537, fan-out 63..257, near-miss names/kinds) + {n} generated (tree | file | bin output) x prior destination state "
+    ctx.coverage["rule"] = (f"{len(fixed)} targeted cases (repaired defects, tree shapes, boundary file sizes 0..65537, fan-out 63..257, near-miss names/kinds, stale files with 11 unusual permission modes, block-generated file outputs of 8..12 MiB with block-permuted / block-dropped prior states and a block-permuted earlier cached version) + {n} generated (tree | file | bin output) x prior destination state "
                             "(absent, absent parents, same, other tree, mutated: stale extras/truncated/modified/flipped bits/kind changes, file at dst, "
-                            "empty dir, dangling link at dst) x restore-gate families (dropped blob, declared outputs permuted/extra/retyped/renamed); trees: depth<=6, "
+                            "empty dir, dangling link at dst, same / other bytes under an unusual permission mode) x restore-gate families (dropped blob, declared outputs permuted/extra/retyped/renamed); trees: depth<=6, "
                             "fan-out<=8, duplicate contents and sub-directories, empty files/dirs, symlinks incl. dangling, executable bits, awkward names; "
                             "non-trivial = write succeeded and the cached object has >= 2 nodes or >= 1 byte; distinct by digest of (cached object, prior state, declared outputs)")
     impl, model = [], []
     chunk = 400
+    skip = {"op": "store.roundtrip", "scratch": scratch, "pkg": "", "bin": "", "outputs": [], "ws": D(), "prior": D(), "variant": "fixed"}
     for i in range(0, len(reqs), chunk):
         a = S.impl(ctx, reqs[i:i + chunk])
         if a is None:
             return
         impl += a
-        model += S.model(ctx, reqs[i:i + chunk])
+        # the model sees permission modes as 'owner may execute'; multi-MiB cases are checked by the listing oracle only
+        model += S.model(ctx, [skip if m.get("nomodel") else dict(c, prior=S.for_model(c["prior"])) for c, m in cases[i:i + chunk]])
     ctx.coverage["evaluations"] = len(reqs)
     ctx.coverage["traces_validated_against_impl"] = len(reqs)
     dist = {"kind": {}, "prior": {}, "load": {}, "depth": {}, "shortcut": 0, "dropped": 0, "declared2": 0, "multi": 0, "bin": 0, "getfault": 0, "getfault_hit": 0}
@@ -452,6 +506,9 @@ def run(ctx):
         if x.get("write") == "ok" and (m.get("size", 0) >= 2 or m["kind"] == "file" and m.get("size", 0) >= 1):
             seen.add(hashlib.sha1(S.jdump([c["ws"], c["prior"], c["outputs"], c.get("declared2"), c.get("drop"), c["bin"]]).encode()).hexdigest())
         oracle_fail += oracle(ctx, c, m, x)
+        if m.get("nomodel"):
+            dist["large"] = dist.get("large", 0) + 1
+            continue
         if "error" in y:
             disagreements.append((c, m, x, y, ["model-error"]))
             continue
@@ -527,7 +584,8 @@ def replay(ctx, rep):
         return 0
     r = dict(r, scratch=ctx.scratch("c06"))
     x = S.impl(ctx, [r])[0]
-    y = S.model(ctx, [r])[0]
+    big = S.has_big(r.get("ws")) or S.has_big(r.get("prior"))
+    y = {"note": "multi-MiB case: listing oracle only"} if big else S.model(ctx, [dict(r, prior=S.for_model(r["prior"]))])[0]
     print("impl :", S.jdump({k: v for k, v in x.items() if k not in ("before",)})[:3000])
     print("model:", S.jdump(y)[:3000])
     pkg = split(r["pkg"])
